@@ -134,6 +134,16 @@ def _run_guarded(run, trace, prop, res):
         if WATCHDOG["fired"]:
             raise _CaseHang()
         return out
+    except Exception as e:
+        # an exception that the property module did not expect and that was raised INSIDE the library (innermost
+        # frame in the cloudsync package: AttributeError, TypeError, KeyError ... out of library code the harness
+        # called directly) is a finding about the library, not a harness failure
+        tb = traceback.extract_tb(e.__traceback__)
+        if tb and "/cloudsync/" in tb[-1].filename.replace("\\", "/") and "/verif/" not in tb[-1].filename:
+            return violation("library_exception", "%s raised by library code at %s:%d (%s), called from the harness at %s" % (
+                repr(e)[:200], os.path.basename(tb[-1].filename), tb[-1].lineno, tb[-1].name,
+                next(("%s:%d" % (os.path.basename(f.filename), f.lineno) for f in reversed(tb) if "/verif/" in f.filename), "?")))
+        raise
     except _CaseHang:
         res["hangs"] = res.get("hangs", 0) + 1
         res["labels"]["hang:case_abandoned_after_%ds" % CASE_WALL_LIMIT] += 1
